@@ -421,3 +421,48 @@ func themes2(c *mc.Ctx, els []*element, tor [8]ref.Point, lam []*big.Int) {
 		}
 	})
 }
+
+// selfAliased: CompressedRistretto decoders handed (a window of) the
+// receiver's OWN storage; see the twin in c10.  Defect of the pinned tree,
+// fixed in /repo by 3d8d518.
+func selfAliased(c *mc.Ctx, S [][]byte) {
+	windows := [][2]int{{0, 32}, {0, 31}, {1, 32}, {16, 32}, {0, 0}}
+	alphed.Par(c, "self-aliased-decode", len(S)*len(windows), func(w *mc.W, i int) {
+		init, win := S[i/len(windows)], windows[i%len(windows)]
+		lo, hi := win[0], win[1]
+		_, ok := ref.RistrettoDecode(init[lo:hi])
+		w.Eval(fmt.Sprintf("self-aliased-decode/accept=%v", ok), true)
+		cas := map[string]string{"receiver": hx(init), "window": fmt.Sprintf("[%d:%d]", lo, hi)}
+		run := func(alias, setBytes bool) (bool, []byte) {
+			var p curve.CompressedRistretto
+			copy(p[:], init)
+			in := append([]byte{}, init[lo:hi]...)
+			if alias {
+				in = p[lo:hi]
+			}
+			var err error
+			if setBytes {
+				_, err = p.SetBytes(in)
+			} else {
+				err = p.UnmarshalBinary(in)
+			}
+			return err != nil, append([]byte{}, p[:]...)
+		}
+		wantAfter := zero32
+		if ok {
+			wantAfter = init
+		}
+		eA, pA := run(true, false)
+		eC, pC := run(false, false)
+		if eA != eC || !bytes.Equal(pA, pC) || eA != !ok || !bytes.Equal(pA, wantAfter) {
+			w.Fail("CompressedRistretto.UnmarshalBinary/data-aliases-receiver", fmt.Sprintf("receiver holding %x, p.UnmarshalBinary(p[%d:%d]): error=%v receiver=%x; separate copy of the same bytes: error=%v receiver=%x; RFC accepts=%v", init, lo, hi, eA, pA, eC, pC, ok), cas)
+		}
+		sA, qA := run(true, true)
+		sC, qC := run(false, true)
+		if sA != sC || !bytes.Equal(qA, qC) || sA != (hi-lo != 32) || !bytes.Equal(qA, init) {
+			w.Fail("CompressedRistretto.SetBytes/data-aliases-receiver", fmt.Sprintf("receiver holding %x, p.SetBytes(p[%d:%d]): error=%v receiver=%x; separate copy: error=%v receiver=%x", init, lo, hi, sA, qA, sC, qC), cas)
+		}
+	})
+	c.Require("self-aliased-decode/accept=true", 300)
+	c.Require("self-aliased-decode/accept=false", 300)
+}
